@@ -33,6 +33,7 @@ def check(run):
     cache.check_collection_memo(run, P, "to_linecollection", "_line_collection_cached_parameters", "line_collection", "_grid_to_matplotlib_linecollection")
     cache.check_side_tables(run, P, SLOTS)
     cache.check_slot_readers(run, P)
+    cache.check_side_tables_total(run, P, SLOTS)
     _copies(run, P)
     _nan_filter(run, P)
     _antimeridian(run, P)
